@@ -30,6 +30,14 @@ CHECKS = {
  "C02": dict(technique="CrossHair symbolic execution of Node.slice/cut/replace (model/replace.py, fragment.py) with both positions and the slice choice / a second document's cut positions symbolic, against the token-splice reference",
              text="For every catalogue document and every position pair the solver explores every path of slice/cut (out-of-range must raise) and of replace with every catalogue slice (closed, open, deep, astral) and with slices cut at two symbolic positions of a second document; a returned document has exactly the tokens old[:from]+slice+old[to:], the predicted size, merged text, and is valid under the spec-derived validator; re-inserting a cut slice must succeed and give an equal document; anything but ReplaceError is a violation.",
              ref="4/C02"),
+ "C06": dict(technique="direct z3: compiled ContentMatch automaton (read through the public API, unrolled L times over a z3 string) vs an independently parsed z3 regular expression; dead-end rejection predicted by a z3 query; CrossHair ties match_fragment/match_type to the table",
+             text="For every content expression up to syntax-tree size 3 (thorough 4) over three alphabets (plain, grouped, inline with non-generatable types), seeded larger ones and the repository's own, z3 finds no child sequence up to length L = n_M + n_R (cap 12) on which complete-content acceptance or alive-prefix status of the compiled matcher differs from the expression read as a regular expression, and Schema() rejects exactly the expressions with a required position only non-generatable nodes can fill; malformed expressions are rejected (concrete enumeration, reported separately).",
+             ref="4/C06",
+             note="Bounded by L per expression (evidence: expressions_with_full_bound counts those where L reached n_M+n_R, which extends the verdict to all lengths if the position automaton is right). Trusted: z3 5.1 sequence/regex theory, the reference parser engine/oracle/cexpr.py, extraction through edge_count/edge/valid_end. Witnesses are replayed on plain CPython against Python's re."),
+ "C15": dict(technique="direct z3: existence queries over the reference regular expressions (fillers u in Gen*, wrapper chains as finite-domain SMT) against the answers of the real fill_before / find_wrapping / create_and_fill",
+             text="For every enumerated expression, every automaton state, following sequence (<= 2), start index and to_end, a returned filler is generatable and really completes the match (z3 membership), and a None answer is confirmed by an unsat existence query; for 3-type nested schemas and the catalogue schemas every returned wrapper chain satisfies the five clauses and z3 shows no shorter chain (or no chain at all when None is returned).",
+             ref="4/C15",
+             note="Bounded: expressions/schemas enumerated as listed in evidence bounds; fillers up to n_states+1. Trusted: z3 5.1, reference parser, automaton extraction. Witnesses replayed on plain CPython with Python's re and brute force."),
 }
 CHECKS_END = None
 
